@@ -1259,8 +1259,11 @@ class FileSet:
                 # match to our path
                 # NB: using posixpath rather than os.path because
                 # AbstractFileSystem objects always work with / not \
+                # (with a trailing separator like all the other search
+                # directories, otherwise the next level would be globbed as
+                # siblings of this directory)
                 search_dirs = [
-                    (posixpath.join(old_dir, subdir_chunk), attr)
+                    (posixpath.join(old_dir, subdir_chunk, ""), attr)
                     for old_dir, attr in search_dirs
                 ]
                 continue
